@@ -1553,3 +1553,247 @@ mod tests {
         assert_eq!(pre, expected_after);
     }
 }
+
+/// Verification hooks (only with `--cfg scylla_verif`): drive the crate-private
+/// `RawTablet::from_custom_payload`, `Tablet::from_raw_tablet`, `TabletsInfo::{add_tablet,
+/// perform_maintenance}` with an operation sequence and observe the tablets of a table
+/// (ranges, replicas, unresolved replicas, flags) and the three lookups. Pass-through only.
+#[cfg(scylla_verif)]
+#[allow(missing_docs)]
+pub mod verif_hooks {
+    use super::{
+        RawTablet, RawTabletReplicas, TableTablets, Tablet, TabletParsingError, TabletsInfo,
+    };
+    use crate::cluster::Node;
+    use crate::cluster::metadata::{Keyspace, MaterializedView, Strategy, Table};
+    use crate::frame::response::result::TableSpec;
+    use crate::routing::{Shard, Token};
+    use bytes::Bytes;
+    use std::collections::{HashMap, HashSet};
+    use std::sync::Arc;
+    use uuid::Uuid;
+
+    pub type Replica = (Arc<Node>, Shard);
+
+    /// One tablet as stored: first/last token (inclusive), resolved replicas, the raw replica
+    /// list kept while some replica is unresolved (`Tablet.failed`).
+    pub struct TabletView {
+        pub first: i64,
+        pub last: i64,
+        pub all: Vec<Replica>,
+        pub failed: Option<Vec<(Uuid, Shard)>>,
+    }
+
+    /// Description of one keyspace for `perform_maintenance`: name, `tablet_based`, table names,
+    /// materialized view names.
+    pub struct KeyspaceDesc {
+        pub name: String,
+        pub tablet_based: bool,
+        pub tables: Vec<String>,
+        pub views: Vec<String>,
+    }
+
+    fn empty_table() -> Table {
+        Table {
+            columns: HashMap::new(),
+            partition_key: vec![],
+            clustering_key: vec![],
+            partitioner: None,
+            pk_column_specs: vec![],
+        }
+    }
+
+    fn view(t: &Tablet) -> TabletView {
+        TabletView {
+            first: t.first_token.value(),
+            last: t.last_token.value(),
+            all: t.replicas.all.clone(),
+            failed: t.failed.as_ref().map(|f| f.replicas.clone()),
+        }
+    }
+
+    pub struct VerifTablets {
+        info: TabletsInfo,
+    }
+
+    impl Default for VerifTablets {
+        fn default() -> Self {
+            Self::new()
+        }
+    }
+
+    impl VerifTablets {
+        pub fn new() -> Self {
+            Self {
+                info: TabletsInfo::new(),
+            }
+        }
+
+        fn table<'a>(&'a self, ks: &str, table: &str) -> Option<&'a TableTablets> {
+            self.info.tablets_for_table(&TableSpec::borrowed(ks, table))
+        }
+
+        /// `RawTablet::from_custom_payload(payload)`; when it yields a tablet, what
+        /// `ClusterState::update_tablets` does with it: `Tablet::from_raw_tablet` with the
+        /// translator `known.get(uuid)`, then `TabletsInfo::add_tablet`.
+        /// `None`: no tablet entry in the payload. `Some(Err(class))`: payload refused.
+        /// `Some(Ok(n))`: tablet added, `n` replicas were not resolved.
+        pub fn learn_from_payload(
+            &mut self,
+            ks: &str,
+            table: &str,
+            payload: &HashMap<String, Bytes>,
+            known: &HashMap<Uuid, Arc<Node>>,
+        ) -> Option<Result<usize, &'static str>> {
+            let raw = match RawTablet::from_custom_payload(payload)? {
+                Ok(raw) => raw,
+                Err(TabletParsingError::Deserialization(_)) => {
+                    return Some(Err("Deserialization"));
+                }
+                Err(TabletParsingError::TypeCheck(_)) => return Some(Err("TypeCheck")),
+                Err(TabletParsingError::ShardNum(_)) => return Some(Err("ShardNum")),
+                Err(TabletParsingError::WrongTokenRange(_, _)) => {
+                    return Some(Err("WrongTokenRange"));
+                }
+            };
+            Some(Ok(self.add_raw_tablet(ks, table, raw, known)))
+        }
+
+        /// A `RawTablet` with the given inclusive token bounds (no payload validation), then as
+        /// `ClusterState::update_tablets`.
+        pub fn learn_raw(
+            &mut self,
+            ks: &str,
+            table: &str,
+            first_token: i64,
+            last_token: i64,
+            replicas: &[(Uuid, Shard)],
+            known: &HashMap<Uuid, Arc<Node>>,
+        ) -> usize {
+            let raw = RawTablet {
+                first_token: Token::new(first_token),
+                last_token: Token::new(last_token),
+                replicas: RawTabletReplicas {
+                    replicas: replicas.to_vec(),
+                },
+            };
+            self.add_raw_tablet(ks, table, raw, known)
+        }
+
+        fn add_raw_tablet(
+            &mut self,
+            ks: &str,
+            table: &str,
+            raw: RawTablet,
+            known: &HashMap<Uuid, Arc<Node>>,
+        ) -> usize {
+            let translator = |uuid: Uuid| known.get(&uuid).cloned();
+            let (tablet, unresolved) = match Tablet::from_raw_tablet(raw, translator) {
+                Ok(t) => (t, 0),
+                Err((t, f)) => (t, f.len()),
+            };
+            self.info
+                .add_tablet(TableSpec::owned(ks.to_owned(), table.to_owned()), tablet);
+            unresolved
+        }
+
+        pub fn perform_maintenance(
+            &mut self,
+            keyspaces: &[KeyspaceDesc],
+            removed_nodes: &HashSet<Uuid>,
+            all_current_nodes: &HashMap<Uuid, Arc<Node>>,
+            recreated_nodes: &HashMap<Uuid, Arc<Node>>,
+        ) {
+            let keyspaces: HashMap<String, Keyspace> = keyspaces
+                .iter()
+                .map(|k| {
+                    (
+                        k.name.clone(),
+                        Keyspace {
+                            strategy: Strategy::LocalStrategy,
+                            durable_writes: false,
+                            tablet_based: k.tablet_based,
+                            tables: k
+                                .tables
+                                .iter()
+                                .map(|t| (t.clone(), empty_table()))
+                                .collect(),
+                            views: k
+                                .views
+                                .iter()
+                                .map(|v| {
+                                    (
+                                        v.clone(),
+                                        MaterializedView {
+                                            view_metadata: empty_table(),
+                                            base_table_name: String::new(),
+                                        },
+                                    )
+                                })
+                                .collect(),
+                            user_defined_types: HashMap::new(),
+                        },
+                    )
+                })
+                .collect();
+            self.info.perform_maintenance(
+                &keyspaces,
+                removed_nodes,
+                all_current_nodes,
+                recreated_nodes,
+            )
+        }
+
+        /// `TabletsInfo.has_unknown_replicas`.
+        pub fn info_has_unknown_replicas(&self) -> bool {
+            self.info.has_unknown_replicas
+        }
+
+        /// `None`: the table has no entry; otherwise `TableTablets.has_unknown_replicas` and the
+        /// tablet list in storage order.
+        pub fn table_view(&self, ks: &str, table: &str) -> Option<(bool, Vec<TabletView>)> {
+            self.table(ks, table).map(|t| {
+                (
+                    t.has_unknown_replicas,
+                    t.tablet_list.iter().map(view).collect(),
+                )
+            })
+        }
+
+        /// `TableTablets::tablet_for_token` (outer `None`: no entry for the table).
+        pub fn tablet_for_token(
+            &self,
+            ks: &str,
+            table: &str,
+            token: i64,
+        ) -> Option<Option<TabletView>> {
+            self.table(ks, table)
+                .map(|t| t.tablet_for_token(Token::new(token)).map(view))
+        }
+
+        /// `TableTablets::replicas_for_token`.
+        pub fn replicas_for_token(
+            &self,
+            ks: &str,
+            table: &str,
+            token: i64,
+        ) -> Option<Option<Vec<Replica>>> {
+            self.table(ks, table)
+                .map(|t| t.replicas_for_token(Token::new(token)).map(|r| r.to_vec()))
+        }
+
+        /// `TableTablets::dc_replicas_for_token`.
+        pub fn dc_replicas_for_token(
+            &self,
+            ks: &str,
+            table: &str,
+            token: i64,
+            dc: &str,
+        ) -> Option<Option<Vec<Replica>>> {
+            self.table(ks, table).map(|t| {
+                t.dc_replicas_for_token(Token::new(token), dc)
+                    .map(|r| r.to_vec())
+            })
+        }
+    }
+}
